@@ -22,9 +22,10 @@ fn c07_typed_fire_all_returns() -> (bool, String) {
     }
 }
 
-/// bounded search: every sequence of <= 5 activations with saliences from {0,1,2}, added to MAIN and popped (each pop followed by
+/// bounded search: every sequence of <= 5 (thorough tier: 11) activations with saliences from {0,1,2}, added to MAIN and popped (each pop followed by
 /// mark_rule_fired, distinct rule names): the pop order must be descending salience, earlier created first among equals.
 fn c07_agenda_order_search() -> (bool, String) {
+    let max_len = crate::bound(5, 11);
     let mut tried = 0u64;
     let mut stack: Vec<Vec<i32>> = vec![vec![]];
     while let Some(s) = stack.pop() {
@@ -49,7 +50,7 @@ fn c07_agenda_order_search() -> (bool, String) {
                 }
             }
         }
-        if s.len() < 5 {
+        if s.len() < max_len {
             for sal in [0, 1, 2] {
                 let mut t = s.clone();
                 t.push(sal);
@@ -57,7 +58,7 @@ fn c07_agenda_order_search() -> (bool, String) {
             }
         }
     }
-    (false, format!("{} sequences of add_activation/get_next_activation/mark_rule_fired, all in agenda order", tried))
+    (false, format!("{} sequences of add_activation/get_next_activation/mark_rule_fired (<= {} activations with saliences from 0/1/2), all in agenda order", tried, max_len))
 }
 
 pub fn witnesses() -> Vec<crate::W> {
